@@ -968,7 +968,7 @@ func (c *Ctx) c07Totality(r *Report, prefix string) {
 		ExactLenParam: -1,
 		LenDom:        map[string][2]int64{"concatenatedNonce": {1, 512}, "diffieHellmanSharedKey": {1, 512}},
 		NonNil:        map[string]bool{"ikesaKey": true, "ikesaKey.EncrInfo": true, "ikesaKey.IntegInfo": true, "ikesaKey.PrfInfo": true, "ikesaKey.DhInfo": true},
-		Rel:           prfPlusLenRel,
+		Rel:           func(f *FA) []Fact { return append(prfPlusLenRel(f), keyLenPositiveRel(f)...) },
 	}
 	if gen != nil {
 		specs[gen] = genSpec
@@ -1016,6 +1016,22 @@ func prfPlusLenRel(f *FA) []Fact {
 	return out
 }
 
+// keyLenPositiveRel: GetKeyLength() of a registered descriptor is positive (every registry entry carries the
+// RFC's key length: rule registry-lengths), so the amount of key material requested from prf+ is not zero.
+func keyLenPositiveRel(f *FA) []Fact {
+	var out []Fact
+	for _, b := range f.Fn.Blocks {
+		for _, ins := range b.Instrs {
+			call, ok := ins.(*ssa.Call)
+			if !ok || !call.Call.IsInvoke() || call.Call.Method.Name() != "GetKeyLength" {
+				continue
+			}
+			out = append(out, Fact{L: f.LFOf(call).add(konst(1), -1)})
+		}
+	}
+	return out
+}
+
 func (c *Ctx) c08Totality(r *Report, prefix string) {
 	gen := c.Method("security", "ChildSAKey", "GenerateKeyForChildSA")
 	specs := map[*ssa.Function]*domSpec{}
@@ -1024,7 +1040,7 @@ func (c *Ctx) c08Totality(r *Report, prefix string) {
 			ExactLenParam: -1,
 			// the nonce string may be empty, integrity may be absent
 			NonNil: map[string]bool{"ikeSA": true, "childsaKey": true, "ikeSA.PrfInfo": true, "childsaKey.EncrKInfo": true, "ikeSA.Prf_d": true},
-			Rel:    prfPlusLenRel,
+			Rel:    func(f *FA) []Fact { return append(prfPlusLenRel(f), keyLenPositiveRel(f)...) },
 		}
 	}
 	c.domainTotalRule(r, prefix+"total-on-domain",
